@@ -937,6 +937,7 @@ struct CancelSpy;
 static PARKED: StdMutex<Vec<(Option<String>, bool)>> = StdMutex::new(Vec::new());
 
 fn spy_reset(n: usize) {
+    SUSPECT.lock().unwrap_or_else(|e| e.into_inner()).clear();
     let mut p = PARKED.lock().unwrap_or_else(|e| e.into_inner());
     p.clear();
     p.resize(n, (None, false));
@@ -958,9 +959,46 @@ fn certainly_parked(ti: usize) -> bool {
 /// parked can only hit somebody else.
 fn cancel_with_probe(ti: usize, f: impl FnOnce()) {
     let parked = certainly_parked(ti);
-    let sent_before = sim::counter("signal.sent");
+    // (signals sent by this very call: another user thread may cancel a running task at the same time)
+    let sent_before = sim::signals_sent_by_me();
     f();
-    if parked && sim::counter("signal.sent") > sent_before {
+    // still parked after the call: it did not start running while the request was being made
+    if parked && certainly_parked(ti) && sim::signals_sent_by_me() > sent_before {
+        // not yet a fact: the scheduler lists a coroutine as running from just before it resumes it, so
+        // a parked coroutine that is being popped right now legitimately takes the signal path. It
+        // becomes a fact if the coroutine does not start running within the next 500 us.
+        if std::env::var("VSIM_TRACE_TASK").is_ok() {
+            let r = recs();
+            eprintln!("[suspect] cancel of task {ti} at +{}us took the signal path; starts {} finished {} parked {:?}", (now() % 1_000_000_000_000) / 1000, r[ti].starts, r[ti].finished, PARKED.lock().unwrap_or_else(|e| e.into_inner()).get(ti));
+        }
+        SUSPECT.lock().unwrap_or_else(|e| e.into_inner()).push((ti, now()));
+    }
+}
+
+/// (task, time of a cancel request that took the signal path although the task looked parked)
+static SUSPECT: StdMutex<Vec<(usize, u64)>> = StdMutex::new(Vec::new());
+
+/// Called from the listener on every state change: `running` = the task whose coroutine just became
+/// Running (clears its suspicion); suspicions older than 500 us become the root-cause counter.
+fn suspect_tick(running: Option<usize>) {
+    let mut s = SUSPECT.lock().unwrap_or_else(|e| e.into_inner());
+    if s.is_empty() {
+        return;
+    }
+    let t = now();
+    let mut matured = 0;
+    s.retain(|(task, at)| {
+        if Some(*task) == running && t.saturating_sub(*at) <= 500_000 {
+            return false;
+        }
+        if t.saturating_sub(*at) > 500_000 {
+            matured += 1;
+            return false;
+        }
+        true
+    });
+    drop(s);
+    for _ in 0..matured {
         sim::count("cause.rt.signal-for-parked-task");
     }
 }
@@ -981,6 +1019,7 @@ impl open_coroutine_core::coroutine::listener::Listener<(), Option<usize>> for C
                     eprintln!("[trace task {t}] +{}us on {me}: -> {new:?}", (now() % 1_000_000_000_000) / 1000);
                 }
             }
+            suspect_tick(if matches!(new, CoroutineState::Running) { tag } else { None });
             let mut p = PARKED.lock().unwrap_or_else(|e| e.into_inner());
             match new {
                 CoroutineState::Running => {
